@@ -74,10 +74,16 @@ func (wf *WALFileType) Replay(dryRun bool) error {
 				return fmt.Errorf("seek error: %w", err)
 			}
 			tgID, tgSerialized, err := wf.readTGData()
-			tgData[tgID] = tgSerialized
 			if continueRead = fullRead(err); !continueRead {
 				break // Break out of switch
 			}
+			if err != nil {
+				// a damaged record (bad length or checksum) carries no TG: skip it.
+				// Booking it under tgID 0 made the second one look like a duplicate
+				// and the whole WAL, intact transactions included, was given up.
+				break // Break out of switch
+			}
+			tgData[tgID] = tgSerialized
 			// give up Replay if there is already a TG data location in this WAL
 			if _, ok := offsetTGDataInWAL[tgID]; ok {
 				log.Error(io.GetCallerFileContext(0) + ": Duplicate TG Data in WAL")
